@@ -528,7 +528,7 @@ func Run(cfg fw.Config, rec *fw.Rec) {
 		return
 	}
 	rec.Rule = "(a) every enumerated single-node configuration of C04's full vocabulary (failing / null-returning actions, rejecting / failing guards, invalid patterns, missing and @var targets, 4 error settings) x 5 states x 5 pendings, Step and Walk (limits 0,1,100), rendered with native actions (nil,err), native (partial,err), native identity action, and ECMAScript (sampled); (b) random multi-node specs with message sequences; deep snapshots of state, messages, control, props and spec are compared before/after, result maps are checked for identity with input maps, and the call is repeated; non-trivial = case whose result has a next state, an error, or emissions; distinct by canonical case"
-	rec.Required = []string{"op_step", "op_walk", "render_native-nilerr", "render_native-partial", "render_native-identity", "render_ecma", "path_action_failed", "path_error_node", "path_limit", "random_walks", "inplace_mutator_scripts", "builtin_state_scripts_repeated", "result_with_getters_exported_the_same_way_every_time", "walks_with_several_holding_breakpoints_repeated", "walks_over_a_refused_pattern_repeated", "walks_with_a_control_used_before_and_edited_since"}
+	rec.Required = []string{"op_step", "op_walk", "render_native-nilerr", "render_native-partial", "render_native-identity", "render_ecma", "path_action_failed", "path_error_node", "path_limit", "random_walks", "inplace_mutator_scripts", "builtin_state_scripts_repeated", "result_with_getters_exported_the_same_way_every_time", "walks_with_several_holding_breakpoints_repeated", "walks_over_a_refused_pattern_repeated", "walks_with_a_control_used_before_and_edited_since", "props_tally_scripts_without_step_properties_repeated"}
 	rec.Assume = []string{"native actions copy their input before modifying it (except the identity action, which returns it untouched), so a write into caller-owned data is the engine's", "equality of repeated results is claimed for guarded branches with at most one candidate"}
 	cs := c04.Configs(true)
 	states := c04.States()
@@ -653,6 +653,43 @@ func Run(cfg fw.Config, rec *fw.Rec) {
 			if rep == 59 {
 				rec.Bucket("result_with_getters_exported_the_same_way_every_time")
 			}
+		}
+	}
+	// a script that keeps a tally in _.props: without step properties (nil, or an empty map)
+	// every call starts from nothing, whichever machine or spec ran before
+	{
+		const tallyJS = `var n = (_.props.tally || 0) + 1; _.props.tally = n; _.props["seen_" + n] = true; var ks = []; for (var k in _.props) { ks.push(k); } ks.sort(); return {n: n, keys: ks.join(",")};`
+		same := true
+		first := ""
+		for _, position := range []string{"action", "guard"} {
+			a := scriptSpec(tallyJS, position, 0)
+			spec, err := renderSpec(a, "ecma")
+			if err != nil {
+				rec.Inconclusive("tally spec: " + err.Error())
+				same = false
+				break
+			}
+			for rep := 0; rep < 12 && same; rep++ {
+				var props core.StepProps
+				if rep%2 == 1 {
+					props = core.StepProps{}
+				}
+				w, err := spec.Walk(context.Background(), &core.State{NodeName: "start", Bs: match.Bindings{}}, []interface{}{map[string]interface{}{"uid": "m"}}, &core.Control{Limit: 10}, props)
+				rec.Eval(1)
+				got := walkedCanon(w, err)
+				if first == "" && position == "action" && rep == 0 {
+					first = got
+				}
+				if rep == 0 {
+					first = got
+				} else if got != first {
+					rec.Violation("C06:repeat-differs:props-tally", fmt.Sprintf("a script that keeps a tally in _.props, called without step properties (nil / empty), sees what an earlier call left there:\n first: %s\n later: %s", fw.Short(first), fw.Short(got)), "tally script as "+position)
+					same = false
+				}
+			}
+		}
+		if same {
+			rec.Bucket("props_tally_scripts_without_step_properties_repeated")
 		}
 	}
 	// several breakpoints that all hold: the same walk reports the same one every time
